@@ -73,20 +73,15 @@ def SetVal.lt : SetVal → SetVal → Bool
   | .str _, .num _ => false
   | .str a, .str b => strLt a b
 
-/-- map keys compare with `==`: -0 and 0 are one key. -/
-def SetVal.norm : SetVal → SetVal
-  | .num n => if n.mant = 0 then .num ⟨false, 0, 0⟩ else .num n
-  | v => v
-
-/-- canonical form of the key set: sorted, no duplicates. -/
-def setInsertSorted (v : SetVal) : List SetVal → List SetVal
+/-- canonical form of the key set: sorted by value, no duplicates. -0 and 0 are one key; a Go
+map assignment over an equal float key rewrites the key (`needkeyupdate`), so the sign of zero
+is that of the last write. -/
+def setInsert (v : SetVal) : List SetVal → List SetVal
   | [] => [v]
   | x :: xs =>
     if v.lt x then v :: x :: xs
-    else if x.lt v then x :: setInsertSorted v xs
-    else x :: xs
-
-def setInsert (v : SetVal) (vals : List SetVal) : List SetVal := setInsertSorted v.norm vals
+    else if x.lt v then x :: setInsert v xs
+    else v :: xs
 
 /-! ### token helpers -/
 
@@ -825,7 +820,11 @@ def printCtx : Bool → Expr → List Tok
   | _, .call name args => callNameTok name :: .sym .lparen :: (printArgs args ++ [.sym .rparen])
   | _, .paren e => .sym .lparen :: (printCtx false e ++ [.sym .rparen])
   | reCtx, .binary op l r =>
-    printCtx reCtx l ++ opToTok op :: printCtx (op = .eqregex || op = .neqregex) r
+    let lt := printCtx reCtx l
+    -- a '/' is DIV only after some tokens (`Scanner.Scan`); after `::tag` / `::field` it starts a
+    -- regex scan instead, which never yields an operator
+    let opTok := if op = .div && !divAfter lt.getLast? then .bad .illegal ['/'] else opToTok op
+    lt ++ opTok :: printCtx (op = .eqregex || op = .neqregex) r
 def printArgs : Args → List Tok
   | .nil => []
   | .cons e .nil => printCtx true e
